@@ -46,17 +46,17 @@ const (
 
 // msg is one message call / contract creation.
 type msg struct {
-	caller   Addr     // msg.sender seen by the code
-	self     Addr     // account whose storage/balance the code acts on
-	codeAddr Addr     // where the code came from (decides precompile dispatch)
-	value    *big.Int // CALLVALUE
-	transfer bool     // move value from caller to self
-	data     []byte
-	code     []byte
-	gas      uint64
-	static   bool
-	depth    int
-	create   bool
+	caller       Addr     // msg.sender seen by the code
+	self         Addr     // account whose storage/balance the code acts on
+	codeAddr     Addr     // where the code came from (decides precompile dispatch)
+	value        *big.Int // CALLVALUE
+	transfer     bool     // move value from caller to self
+	data         []byte
+	code         []byte
+	gas          uint64
+	static       bool
+	depth        int
+	create       bool
 	noPrecompile bool // EIP-7702: code resolved through a delegation
 }
 
@@ -401,6 +401,7 @@ func (f *frame) accountAccess(a Addr) uint64 {
 	if f.vm.st.warmA(a) {
 		return gWarmAccess
 	}
+	f.vm.stats.ColdAccesses++
 	return gColdAccount
 }
 
@@ -1012,6 +1013,7 @@ func (f *frame) loop() outcome {
 				l.Topics = append(l.Topics, wordToHash(f.pop()))
 			}
 			st().logs = append(st().logs, l)
+			vm.stats.Logs++
 			f.pc++
 
 		// --------------------------------------------------------------- system
@@ -1048,10 +1050,12 @@ func (f *frame) loop() outcome {
 			f.pop()
 			st().subBalance(m.self, bal)
 			st().addBalance(ben, bal)
+			vm.stats.SelfDestructs++
 			if st().created[m.self] {
 				// created in this transaction: really destroyed; ether sent to self is burnt
 				st().mut(m.self).Balance = new(big.Int)
 				st().destructed[m.self] = true
+				vm.stats.SelfDestructsFresh++
 			}
 			vm.stats.StateWrites++
 			return outcome{ok: true, gasLeft: f.gas}
@@ -1114,6 +1118,7 @@ func (f *frame) opCreate(op byte) {
 	vm.st.mut(sender).Nonce = senderNonce + 1
 	if vm.st.hasCodeOrNonceOrStorage(addr) {
 		// address collision: the forwarded gas is lost
+		vm.stats.Collisions++
 		f.push(new(big.Int))
 		return
 	}
@@ -1212,6 +1217,12 @@ func (f *frame) opCall(op byte) {
 		return
 	}
 	vm.stats.Frames++
+	if noPrecompile {
+		vm.stats.DelegatedRuns++
+	}
+	if child.transfer && value.Sign() != 0 {
+		vm.stats.ValueCalls++
+	}
 	o := vm.call(child)
 	f.gas += o.gasLeft
 	f.retData = o.out
